@@ -1,0 +1,174 @@
+//go:build verif
+// +build verif
+
+// Contracts for the kxps package (build tag verif; never compiled into the library).
+// Specification source: the statement of C20. Floating point is IEEE-754 binary64, round to nearest even.
+
+package kxps
+
+import (
+	"math"
+	"time"
+)
+
+func spec_same(a, b float64) bool { return math.Float64bits(a) == math.Float64bits(b) }
+
+// finite, non-negative, and within what a 64-bit counter can produce over a window of at least 1 ms
+func spec_finiteNonNeg(x float64) bool { return !math.IsNaN(x) && !math.IsInf(x, 0) && x >= 0 && x <= 1e22 }
+
+// the meters of the statement: 10 s, 30 s and 300 s windows
+func spec_wfInterval(d time.Duration) bool {
+	return d == 10*time.Second || d == 30*time.Second || d == 300*time.Second
+}
+
+// the rate the statement defines: the counter's increase over the window length (per second); 0 when the counter
+// stalled or went backwards (or jumped by 2^63 or more, which is indistinguishable from going backwards)
+func spec_rate(increase uint64, window time.Duration) float64 {
+	d := int64(increase)
+	if d <= 0 {
+		return 0
+	}
+	return float64(d) * 1000 / float64(int64(window/time.Millisecond))
+}
+
+//@ requires (*sample).sample
+func req_sample(v *sample) bool { return spec_wfInterval(v.interval) }
+
+// not due: nothing changes and the call says so
+//@ ensures (*sample).sample C20.sample.not-due
+func ens_sample_notDue(v *sample, old_v sample, now time.Time, ret0 bool) bool {
+	if !old_v.lastSample.Add(old_v.interval).After(now) {
+		return true
+	}
+	return !ret0 && spec_same(v.rps, old_v.rps) && v.count == old_v.count && v.lastSample == old_v.lastSample && v.create == old_v.create && v.interval == old_v.interval
+}
+
+// due: the new rate is the increase since the previous sample of this window over the window length
+//@ ensures (*sample).sample C20.sample.rate
+func ens_sample_rate(v *sample, old_v sample, now time.Time, nbRequests uint64, ret0 bool) bool {
+	if old_v.lastSample.Add(old_v.interval).After(now) {
+		return true
+	}
+	return ret0 && v.count == nbRequests && v.lastSample == now && v.interval == old_v.interval && v.create == old_v.create &&
+		spec_same(v.rps, spec_rate(nbRequests-old_v.count, old_v.interval))
+}
+
+// every reported value is finite and non-negative
+//@ ensures (*sample).sample C20.sample.finite
+func ens_sample_finite(v *sample, old_v sample) bool {
+	if !spec_finiteNonNeg(old_v.rps) {
+		return true
+	}
+	return spec_finiteNonNeg(v.rps)
+}
+
+//@ assigns (*sample).sample v.*
+
+//@ ensures (*sample).initialize C20.sample.initialize
+func ens_sample_init(v *sample, old_v sample, now time.Time, nbRequests uint64) bool {
+	return v.count == nbRequests && v.lastSample == now && v.create == now && spec_same(v.rps, old_v.rps) && v.interval == old_v.interval
+}
+
+//@ assigns (*sample).initialize v.*
+
+// the counter source is arbitrary (any uint64 on every call); it must not touch the meter
+//@ iface kxpsSource.Count assigns nothing
+
+// doSample: nothing before the first non-zero observation; then initialise all windows; then cascade 10s -> 30s -> 300s.
+// Only the three windows change (in particular the average's baseline does not).
+//@ requires (*kxps).doSample
+func req_doSample(v *kxps) bool {
+	return v.source != nil && v.r10s.interval == 10*time.Second && v.r30s.interval == 30*time.Second && v.r300s.interval == 300*time.Second
+}
+
+//@ assigns (*kxps).doSample v.r10s, v.r30s, v.r300s
+
+//@ ensures (*kxps).doSample C20.dosample.finite
+func ens_doSample_finite(v *kxps, old_v kxps, err error) bool {
+	if !(spec_finiteNonNeg(old_v.r10s.rps) && spec_finiteNonNeg(old_v.r30s.rps) && spec_finiteNonNeg(old_v.r300s.rps)) {
+		return true
+	}
+	return err == nil && spec_finiteNonNeg(v.r10s.rps) && spec_finiteNonNeg(v.r30s.rps) && spec_finiteNonNeg(v.r300s.rps) &&
+		v.r10s.interval == old_v.r10s.interval && v.r30s.interval == old_v.r30s.interval && v.r300s.interval == old_v.r300s.interval
+}
+
+//@ requires (*kxps).sampleAverage
+func req_sampleAverage(v *kxps) bool { return v.source != nil }
+
+// sampleAverage: 0 until a first non-zero observation fixed the baseline; afterwards finite and non-negative; the
+// baseline (count and instant of the first non-zero observation) never moves once set.
+//@ ensures (*kxps).sampleAverage C20.average.finite
+func ens_average_finite(ret0 float64) bool { return spec_finiteNonNeg(ret0) }
+
+//@ ensures (*kxps).sampleAverage C20.average.baseline
+func ens_average_baseline(v *kxps, old_v kxps, now time.Time) bool {
+	if old_v.average != 0 {
+		return v.average == old_v.average && v.create == old_v.create
+	}
+	return v.average == 0 && v.create == old_v.create || v.create == now
+}
+
+//@ assigns (*kxps).sampleAverage v.average, v.create
+
+// bitrate meter: bytes per second scaled to kbit/s; reading before Start is refused
+//@ requires (*kbps).Kbps10s
+func req_kbps_Kbps10s(v *kbps) bool { return v.imp != nil && spec_finiteNonNeg(v.imp.r10s.rps) }
+
+//@ panics_iff (*kbps).Kbps10s C20.kbps.refuse
+func pan_kbps10(v *kbps) bool { return !v.imp.started }
+
+//@ ensures (*kbps).Kbps10s C20.kbps.scale
+func ens_kbps10(v *kbps, ret0 float64) bool { return spec_same(ret0, v.imp.r10s.rps*8/1000) && spec_finiteNonNeg(ret0) }
+
+//@ requires (*kbps).Kbps30s
+func req_kbps_Kbps30s(v *kbps) bool { return v.imp != nil && spec_finiteNonNeg(v.imp.r30s.rps) }
+
+//@ panics_iff (*kbps).Kbps30s C20.kbps.refuse
+func pan_kbps30(v *kbps) bool { return !v.imp.started }
+
+//@ ensures (*kbps).Kbps30s C20.kbps.scale
+func ens_kbps30(v *kbps, ret0 float64) bool { return spec_same(ret0, v.imp.r30s.rps*8/1000) && spec_finiteNonNeg(ret0) }
+
+//@ requires (*kbps).Kbps300s
+func req_kbps_Kbps300s(v *kbps) bool { return v.imp != nil && spec_finiteNonNeg(v.imp.r300s.rps) }
+
+//@ panics_iff (*kbps).Kbps300s C20.kbps.refuse
+func pan_kbps300(v *kbps) bool { return !v.imp.started }
+
+//@ ensures (*kbps).Kbps300s C20.kbps.scale
+func ens_kbps300(v *kbps, ret0 float64) bool { return spec_same(ret0, v.imp.r300s.rps*8/1000) && spec_finiteNonNeg(ret0) }
+
+//@ requires (*krps).Rps10s
+func req_krps_Rps10s(v *krps) bool { return v.imp != nil && spec_finiteNonNeg(v.imp.r10s.rps) }
+
+//@ panics_iff (*krps).Rps10s C20.krps.refuse
+func pan_krps10(v *krps) bool { return !v.imp.started }
+
+//@ ensures (*krps).Rps10s C20.krps.value
+func ens_krps10(v *krps, ret0 float64) bool { return spec_same(ret0, v.imp.r10s.rps) }
+
+//@ requires (*krps).Rps30s
+func req_krps_Rps30s(v *krps) bool { return v.imp != nil && spec_finiteNonNeg(v.imp.r30s.rps) }
+
+//@ panics_iff (*krps).Rps30s C20.krps.refuse
+func pan_krps30(v *krps) bool { return !v.imp.started }
+
+//@ requires (*krps).Rps300s
+func req_krps_Rps300s(v *krps) bool { return v.imp != nil && spec_finiteNonNeg(v.imp.r300s.rps) }
+
+//@ panics_iff (*krps).Rps300s C20.krps.refuse
+func pan_krps300(v *krps) bool { return !v.imp.started }
+
+//@ requires (*kbps).Average
+func req_kbps_Average(v *kbps) bool { return v.imp != nil && v.imp.source != nil }
+
+//@ assigns (*kbps).Average v.imp.average, v.imp.create
+//@ panics_iff (*kbps).Average C20.kbps.refuse
+func pan_kbpsAvg(v *kbps) bool { return !v.imp.started }
+
+//@ requires (*krps).Average
+func req_krps_Average(v *krps) bool { return v.imp != nil && v.imp.source != nil }
+
+//@ assigns (*krps).Average v.imp.average, v.imp.create
+//@ panics_iff (*krps).Average C20.krps.refuse
+func pan_krpsAvg(v *krps) bool { return !v.imp.started }
